@@ -180,6 +180,16 @@ func (e *ExecutorV3) RunTx(context state.Interface, rawTx []byte, rewardPool *bi
 	coinCommission := abcTypes.EventAttribute{Key: []byte("tx.commission_price_coin"), Value: []byte(strconv.Itoa(int(commissions.Coin)))}
 	priceCommission := abcTypes.EventAttribute{Key: []byte("tx.commission_price"), Value: []byte(price.String())}
 
+	if price.Sign() == -1 {
+		// the price is computed from the raw data before the data is validated: an empty multisend list or a route of
+		// fewer than two coins gives base + (n-k)*delta with a negative factor, which is negative for a table whose
+		// delta exceeds its base. A negative amount must never reach the pool arithmetic.
+		return Response{
+			Code: code.CommissionCoinNotSufficient,
+			Log:  fmt.Sprint("Not possible to pay commission"),
+			Info: EncodeError(code.NewCommissionCoinNotSufficient("", "")),
+		}
+	}
 	if price.Sign() != 0 {
 		if !commissions.Coin.IsBaseCoin() {
 			var resp *Response
